@@ -28,7 +28,8 @@ def parse_httpdate(date):
     date = parsedate(date)
     if date is None:
         return None
-    if date[0] < 1970:
+    if date[0] < 100:
+        # two digit year that was not expanded
         date = (date[0] + 2000,) + date[1:]
     return calendar.timegm(date)
 
